@@ -77,6 +77,11 @@ func (s *KeyStore) importKeyRing(newRingData *asn1.KeyRing, delegate api.KeyRing
 	err := s.readKeyRing(keyRing)
 	switch err {
 	case nil:
+		// A key ring without keys has nothing to lose: it is what an interrupted import (or
+		// opening a missing key ring for writing) leaves behind. Import as into a new one.
+		if len(keyRing.data.Keys) == 0 {
+			return keyRing.importASN1(newRingData)
+		}
 		// If the keystore successfully returned an existing key ring with the same name,
 		// we have to resolve this conflict somehow. Present both current and new versions
 		// to the delegate and let it decide how to proceed.
